@@ -35,3 +35,13 @@ VARIANTS += [
              "            ys[i] = interp.linear_interp(t0=prev_t, y0=prev_y, t1=curr_t, y1=curr_y, t=out_t)\n"),
             ("        return torch.stack(ys, dim=0), curr_extra\n", "        return ys, curr_extra\n"))),
 ]
+
+VARIANTS += [
+    # R13.9: seeded random chunkings against the real driver with an uninterpreted chained step
+    V("chunks-extra-state-reinitialised", CORE + "base_solver.py", "        curr_extra = extra0\n",
+      "        curr_extra = self.init_extra_solver_state(ts[0], y0)\n", rule="R13.9"),
+    V("chunks-first-step-of-a-call-halved", CORE + "base_solver.py", "        ys = [y0]\n",
+      "        ys = [y0]\n        first = True\n", rule="R13.9",
+      more=(("                next_t = min(curr_t + step_size, ts[-1])\n",
+             "                next_t = min(curr_t + (0.5 * step_size if first else step_size), ts[-1])\n                first = False\n"),)),
+]
